@@ -248,16 +248,41 @@ def fn_pickle_roundtrip():
         pickle.dump(entries, buf, 1)
         back = pickle.loads(buf.getvalue())
         if len(back) != len(entries):
-            return {"status": "violation", "detail": "length differs for " + sel, "violations": []}
+            return {"status": "violation", "detail": "length differs for " + sel, "violations": [{"body": "harness.C10:replay_pickle", "kwargs": {"sel": sel}, "sig": "C10:entry-changes-through-the-cache-file"}]}
         for e1, e2 in zip(entries, back):
             d1 = {k: v for k, v in vars(e1).items() if k != "config"}
             d2 = {k: v for k, v in vars(e2).items() if k != "config"}
             n += 1
             if d1 != d2:
-                return {"status": "inconclusive", "detail": "pickle round trip changed an entry of %s: %r vs %r" % (sel, d1, d2)}
+                # what the cache file gives back is not what was stored: a cached listing differs from the listing at birth
+                return {"status": "violation", "detail": "pickle round trip changed an entry of %s: %r vs %r" % (sel, {k: d1[k] for k in d1 if d1.get(k) != d2.get(k)}, {k: d2.get(k) for k in d1 if d1.get(k) != d2.get(k)}),
+                        "violations": [{"body": "harness.C10:replay_pickle", "kwargs": {"sel": sel}, "sig": "C10:entry-changes-through-the-cache-file"}]}
         samples.append({"dir": sel, "entries": len(entries), "pickle_bytes": len(buf.getvalue())})
     return {"status": "discharged", "queries": n, "detail": "%d entries of 5 real directories round-trip through pickle protocol 1 unchanged" % n,
             "samples": samples, "solver_s": 0.0, "twin": "n/a", "functions": ["pickle (stdlib) on pygopherd.gopherentry.GopherEntry"], "notes": "concrete validation of a stub contract, not a solver verdict"}
+
+
+def replay_pickle(sel: str) -> bool:
+    import io
+    import pickle
+
+    from pygopherd.handlers import HandlerMultiplexer
+    from pygopherd.protocols.rfc1436 import GopherProtocol
+
+    hx.silence_logging()
+    hx.reset_lazies()
+    cfg = hx.real_config(full_handlers=(".zip" in sel))
+    proto = GopherProtocol(sel, hx.make_server(cfg), hx.make_rh(False), None, hx.ListWriter(), cfg)
+    h = HandlerMultiplexer.getHandler(sel, None, proto, cfg)
+    h.prepare()
+    entries = h.getdirlist()
+    buf = io.BytesIO()
+    pickle.dump(entries, buf, 1)
+    back = pickle.loads(buf.getvalue())
+    a = [{k: v for k, v in vars(e).items() if k != "config"} for e in entries]
+    b = [{k: v for k, v in vars(e).items() if k != "config"} for e in back]
+    hx.require(a == b, "C10:entry-changes-through-the-cache-file", lambda: "listing of %s" % sel)
+    return True
 
 
 def obligations(tier, seed):
